@@ -137,6 +137,7 @@ def s_parts(v):
 def mk_list(items) -> tuple:
     out = []
     for it in items:
+        it = _norm_when(it) if it[0] in ("when", "spread") else it
         if it[0] == "spread":
             seq = it[1]
             if seq[0] == "list":
@@ -179,8 +180,8 @@ def _unwrap_seq(it):
 def rename_binder(v, d_from: int, d_to: int):
     if d_from == d_to or not isinstance(v, tuple) or not v:
         return v
-    if v[0] in ("bv", "idx", "first", "acc") and len(v) > 1 and v[1] == d_from:
-        return (v[0], d_to) + v[2:]
+    if v[0] in ("bv", "idx", "first", "acc", "cidx") and len(v) > 1 and v[1] == d_from:
+        return (v[0], d_to) + tuple(rename_binder(x, d_from, d_to) for x in v[2:])
     if v[0] in ("comp", "fold") and v[1] == d_from:
         return v  # an inner binder of the same depth shadows
     return tuple(rename_binder(x, d_from, d_to) for x in v)
@@ -205,7 +206,7 @@ def canon_binders(v, depth: int = 0, mapping: dict | None = None):
         m2 = dict(mapping)
         m2[v[1]] = nd
         return ("fold", nd, it, init, canon_binders(v[4], nd, m2))
-    if t in ("bv", "idx", "first", "acc") and len(v) > 1 and isinstance(v[1], int):
+    if t in ("bv", "idx", "first", "acc", "cidx") and len(v) > 1 and isinstance(v[1], int):
         return (t, mapping.get(v[1], v[1])) + tuple(canon_binders(x, depth, mapping) for x in v[2:])
     return tuple(canon_binders(x, depth, mapping) for x in v)
 
@@ -231,9 +232,31 @@ def _filtered_base(seq):
     return seq, C(True), None
 
 
+def _norm_when(it):
+    """when(c1, when(c2, x)) -> when(c1 and c2, x);  *(X if c else []) -> when(c, *X)"""
+    if it[0] == "when":
+        inner = _norm_when(it[2])
+        if inner[0] == "when":
+            return ("when", mk_and(it[1], inner[1]), inner[2])
+        return ("when", it[1], inner)
+    if it[0] == "spread" and it[1][0] == "if":
+        c, a, b = it[1][1], it[1][2], it[1][3]
+        empty = (("list", ()), ("call", "frozenset", (), ()), ("call", "set", (), ()), C(()))
+        if b in empty:
+            return _norm_when(("when", c, ("spread", a)))
+        if a in empty:
+            return _norm_when(("when", mk_not(c), ("spread", b)))
+    return it
+
+
 def mk_comp(d, it, items, conds=()):
-    items = tuple(items)
+    items = tuple(_norm_when(i) for i in items)
     it = _unwrap_seq(it)
+    if len(conds) > 1:
+        allc = C(True)
+        for c_ in conds:
+            allc = mk_and(allc, c_)
+        conds = (allc,) if allc != C(True) else ()
     # (A if c else B) where A and B are filtered views of one sequence: one comprehension with a conditional filter
     if it[0] == "if":
         ba, ca, da = _filtered_base(it[2])
@@ -271,7 +294,10 @@ def mk_comp(d, it, items, conds=()):
 
         return mk_comp(d, inner_iter, tuple(sub(i) for i in items), tuple(sub(c) for c in conds))
     if len(items) == 1 and items[0][0] == "when":
-        conds = tuple(conds) + (items[0][1],)
+        allc = items[0][1]
+        for c_ in conds:
+            allc = mk_and(allc, c_)
+        conds = (allc,)
         items = (items[0][2],)
     if it[0] == "c" and isinstance(it[1], (tuple, str)):
         it = ("list", tuple(C(x) for x in it[1]))
@@ -464,6 +490,9 @@ def mk_cmp(op, a, b):
             for q in parts[1:]:
                 r = mk_or(r, q)
             return r if op == "in" else mk_not(r)
+    # D.get(k) is None  (written D[k] here)  is  k not in D
+    if b == NONE and op in ("is", "is not", "==", "!=") and a[0] == "sub" and a[1][0] in ("sym", "attr"):
+        return mk_cmp("not in" if op in ("is", "==") else "in", a[2], a[1])
     # a regular-expression match object is falsy exactly when it is None
     if b == NONE and op in ("is", "is not", "==", "!=") and a[0] == "mcall" and a[2] in ("match", "search", "fullmatch"):
         return a if op in ("is not", "!=") else mk_not(a)
@@ -562,6 +591,8 @@ def show(v, top=True) -> str:
         return f"#{v[1]}" + ("" if v[2] == C(0) else f"+{show(v[2])}")
     if t == "first":
         return f"first${v[1]}"
+    if t == "cidx":
+        return f"#{v[1]}|{show(v[3])}" + ("" if v[2] == C(0) else f"+{show(v[2])}")
     if t == "acc":
         return f"acc${v[1]}"
     if t == "s":
@@ -783,6 +814,15 @@ class AV:
                     if it.optional_vars is not None:
                         self._bind(it.optional_vars, self._ev(it.context_expr, fr), fr)
                 return self._run(list(st.body) + rest, fr, cont)
+            if isinstance(st, ast.Try) and _is_lookup_guard(st):
+                # try: x = D[k]  except KeyError: <exit>   is   if k not in D: <exit>;  x = D[k]
+                asg = st.body[0]
+                sub_ = asg.value
+                test = ast.Compare(left=sub_.slice, ops=[ast.NotIn()], comparators=[sub_.value])
+                guard = ast.If(test=test, body=list(st.handlers[0].body), orelse=[])
+                ast.copy_location(guard, st)
+                ast.fix_missing_locations(guard)
+                return self._run([guard] + list(st.body) + list(st.orelse) + rest, fr, cont)
             if isinstance(st, ast.Try):
                 r = self._try(st, fr)
                 if r is not None:
@@ -1039,6 +1079,15 @@ class AV:
                             stripped.append(it_[2])
                         else:
                             ok_ = False
+                    if not ok_ and cnd is not None:
+                        # mixed items: the counter is the number of earlier elements satisfying its condition
+                        mapping_ = {("acc", d, c_): ("cidx", d, counters[c_][1], cnd) for c_ in used}
+                        others_ = {a_: v_ for a_, v_ in carried.items() if a_ != acc}
+                        body_ = tuple(subst(subst(x_, mapping_), others_) for x_ in items_)
+                        if not has(("x",) + body_, "acc"):
+                            base_ = _as_events(old) if old[0] in ("dict", "call") and _as_events(old) is not None else old
+                            fr.env[k] = mk_list(_spread_items(base_) + (("spread", mk_comp(d, it, body_)),))
+                            continue
                     if ok_:
                         mapping_ = {}
                         for c_ in used:
@@ -1597,6 +1646,8 @@ class AV:
                 return ("call", name, args, ())
             if name in ("list", "tuple", "dict", "set") and not args and not kwargs:
                 return ("list", ()) if name != "dict" else ("dict", ())
+            if name in ("set", "frozenset") and len(args) == 1 and args[0] in (("list", ()), C(())):
+                return ("call", name, (), ())
             if name == "dict" and not args:
                 return ("dict", tuple((C(k), v) for k, v in kwargs))
             if name == "dict" and len(args) == 1 and not kwargs:
@@ -1662,6 +1713,11 @@ class AV:
                         return ("list", tuple(("list", (k, v)) for k, v in recv[1]))
                     return ("list", tuple(k if m == "keys" else v for k, v in recv[1]))
                 return ("mcall", recv, m, (), ())
+            if m == "get" and len(args) == 1 and not kwargs:
+                recv = self._ev(recv_node, fr)
+                if recv[0] in ("sym", "attr") or (recv[0] == "dict" and not all(k[0] == "c" for k, _ in recv[1])):
+                    # the value for a present key; `is None` tests on it are read as 'key absent' (see mk_cmp)
+                    return ("sub", recv, args[0])
             if m == "get" and args:
                 recv = self._ev(recv_node, fr)
                 if recv[0] == "dict" and args[0][0] == "c" and all(k[0] == "c" for k, _ in recv[1]):
@@ -1918,6 +1974,18 @@ _FALL = ("fall",)
 _BREAK = ("break",)
 _CONT = ("continue",)
 _MIXED = ("mixed-exit",)
+
+
+def _is_lookup_guard(st: ast.Try) -> bool:
+    if len(st.body) != 1 or len(st.handlers) != 1 or st.finalbody:
+        return False
+    asg = st.body[0]
+    if not (isinstance(asg, (ast.Assign, ast.AnnAssign)) and isinstance(asg.value, ast.Subscript) and not isinstance(asg.value.slice, ast.Slice)):
+        return False
+    h = st.handlers[0]
+    if h.type is None or (dotted(h.type) or "").split(".")[-1] != "KeyError" or not h.body:
+        return False
+    return isinstance(h.body[-1], (ast.Continue, ast.Return, ast.Raise, ast.Break))
 
 
 def _lift_raise(v):
